@@ -137,6 +137,8 @@ func verifIsSymbolic() bool                                        { return fals
 func verifTrace(msg string, args ...interface{})                   {}
 func verifYield()                                                  {}
 func verifQuiesce()                                                {}
+func verifAdvance(d int64)                                         {}
+func verifClock() int64                                            { return 0 }
 func verifUFBool(name string, args ...interface{}) bool            { return false }
 func verifUFInt(name string, lo, hi int64, args ...interface{}) int64 { return lo }
 func verifSetField(ptr interface{}, field string, v interface{})   {}
